@@ -6945,6 +6945,7 @@ class Rect(Shape):
             self.rx = self.rx.value(relative_length=width, **kwargs)
         if isinstance(self.ry, Length):
             self.ry = self.ry.value(relative_length=height, **kwargs)
+        self._validate_rect()  # With the lengths resolved the corner radii can be clamped to half the sides.
         return self
 
     def is_degenerate(self):
